@@ -550,19 +550,38 @@ impl Ctx {
         let key = SubstKey::new(&s);
         let k = (name.to_string(), key.clone());
         if let Some(n) = self.instances.get(&k) {
+            #[cfg(goml_verif)]
+            crate::verif_hooks::emit(|| {
+                serde_json::json!({"ev": "ensure", "fn": name, "key": format!("{:?}", key.0), "spec": n, "outcome": "hit"})
+            });
             return n.clone();
         }
         let spec = spec_name_for(name, &s);
         if s.values().map(ty_size).sum::<usize>() > MAX_INSTANCE_TYPE_SIZE {
             self.too_large.get_or_insert_with(|| name.to_string());
+            #[cfg(goml_verif)]
+            crate::verif_hooks::emit(|| {
+                serde_json::json!({"ev": "ensure", "fn": name, "key": format!("{:?}", key.0), "spec": spec, "outcome": "refused"})
+            });
             return spec;
         }
         self.instances
             .insert((name.to_string(), key.clone()), spec.clone());
+        #[cfg(goml_verif)]
+        let mut pushed = false;
         if !self.queued.contains(&(name.to_string(), key.clone())) {
-            self.queued.insert((name.to_string(), key));
+            self.queued.insert((name.to_string(), key.clone()));
             self.work.push_back((name.to_string(), s, spec.clone()));
+            #[cfg(goml_verif)]
+            {
+                pushed = true;
+            }
         }
+        #[cfg(goml_verif)]
+        crate::verif_hooks::emit(|| {
+            serde_json::json!({"ev": "ensure", "fn": name, "key": format!("{:?}", key.0), "spec": spec,
+                "outcome": if pushed { "new" } else { "named" }, "work": self.work.len()})
+        });
         spec
     }
 }
@@ -891,6 +910,10 @@ impl<'a> TypeMono<'a> {
     fn ensure_instance(&mut self, name: &str, args: &[Ty]) -> TastIdent {
         let key = (name.to_string(), args.to_vec());
         if let Some(u) = self.map.get(&key) {
+            #[cfg(goml_verif)]
+            crate::verif_hooks::emit(|| {
+                serde_json::json!({"ev": "tensure", "ty": name, "key": format!("{:?}", args), "spec": u.0, "outcome": "hit"})
+            });
             return u.clone();
         }
         // Create a fresh concrete type name
@@ -905,9 +928,17 @@ impl<'a> TypeMono<'a> {
         let new_name = TastIdent::new(&format!("{}{}", name, suffix));
         if args.iter().map(ty_size).sum::<usize>() > MAX_INSTANCE_TYPE_SIZE {
             self.too_large.get_or_insert_with(|| name.to_string());
+            #[cfg(goml_verif)]
+            crate::verif_hooks::emit(|| {
+                serde_json::json!({"ev": "tensure", "ty": name, "key": format!("{:?}", args), "spec": new_name.0, "outcome": "refused"})
+            });
             return new_name;
         }
         self.map.insert(key.clone(), new_name.clone());
+        #[cfg(goml_verif)]
+        crate::verif_hooks::emit(|| {
+            serde_json::json!({"ev": "tensure", "ty": name, "key": format!("{:?}", args), "spec": new_name.0, "outcome": "new"})
+        });
 
         let ident = TastIdent::new(name);
 
@@ -1234,9 +1265,15 @@ pub fn mono_checked(
     for name in seed_names.into_iter() {
         let _ = ctx.ensure_instance(&name, Subst::new());
     }
+    #[cfg(goml_verif)]
+    crate::verif_hooks::emit(|| serde_json::json!({"ev": "seeded", "work": ctx.work.len()}));
 
     // Process all queued instances
     while let Some((orig_name, s, spec_name)) = ctx.work.pop_front() {
+        #[cfg(goml_verif)]
+        crate::verif_hooks::emit(|| {
+            serde_json::json!({"ev": "pop", "fn": orig_name, "key": format!("{:?}", SubstKey::new(&s).0), "spec": spec_name, "work": ctx.work.len()})
+        });
         // Limit immutable borrow scope to clone necessary pieces
         let (orig_params, orig_ret, orig_body) = {
             let ofn = ctx
@@ -1259,7 +1296,15 @@ pub fn mono_checked(
             ret_ty: new_ret,
             body: new_body,
         });
+        #[cfg(goml_verif)]
+        crate::verif_hooks::emit(|| {
+            serde_json::json!({"ev": "emit", "spec": ctx.out.last().map(|f| f.name.clone()), "out": ctx.out.len()})
+        });
     }
+    #[cfg(goml_verif)]
+    crate::verif_hooks::emit(|| {
+        serde_json::json!({"ev": "drained", "out": ctx.out.len(), "refused": ctx.too_large.is_some()})
+    });
 
     if let Some(name) = ctx.too_large {
         return Err(too_large_message("function", &name));
